@@ -55,7 +55,9 @@ theorem plainVal_wd (ty : Str) (v : Val) (h : PlainVal S ty v) : PlainVal S ty (
 
 mutual
 theorem pres_key : (k : Key) → SendableKey S k → SendableKey S (wdKey C k)
-  | .mk n (.ref p), h => by simp only [wdKey, SendableKey]; exact ⟨h.1, pres_path p h.2⟩
+  | .mk n (.ref p), h => by
+    simp only [wdKey, SendableKey]
+    exact ⟨h.1, pres_path p h.2.1, by have := h.2.2; cases p <;> simp_all [wdPath, keyValueOk]⟩
   | .mk n (.pyint _), h => by simp only [wdKey, SendableKey]; exact h
   | .mk n (.pyfloat _), h => by simp only [wdKey, SendableKey]; exact h
   | .mk n (.real _ _), h => by simp only [wdKey, SendableKey, AtomOk]; exact ⟨h.1, trivial⟩
@@ -73,8 +75,8 @@ theorem pres_keys : (l : List Key) → SendableKeys S l → SendableKeys S (wdKe
 theorem pres_path : (p : Path) → SendablePath S p → SendablePath S (wdPath C p)
   | .inst c host ns keys, h => by
     simp only [wdPath, SendablePath]
-    exact ⟨pres_keys keys h.1, by unfold NoDupKeyNames; rw [wdKeys_names]; exact h.2⟩
-  | .cls c host ns, _ => by simp only [wdPath, SendablePath]
+    exact ⟨pres_keys keys h.1, by unfold NoDupKeyNames; rw [wdKeys_names]; exact h.2.1, h.2.2⟩
+  | .cls c host ns, h => by simp only [SendablePath] at h; simp only [wdPath, SendablePath]; exact h
 end
 
 end
@@ -95,7 +97,7 @@ theorem mem_wdQuals {x : Qual} {l : List Qual} (h : x ∈ wdQuals C.toCodec l) :
 theorem pres_qual (q : Qual) (h : SendableQual S q) : SendableQual S (wdQual C.toCodec q) := by
   obtain ⟨n, ty, v, p, o, ts, ti, tr⟩ := q
   simp only [wdQual, SendableQual]
-  exact plainVal_wd C.toCodec S ty v h
+  exact ⟨plainVal_wd C.toCodec S ty v h.1, h.2⟩
 
 theorem pres_quals (l : List Qual) (h : SendableQuals S l) : SendableQuals S (wdQuals C.toCodec l) := by
   refine ⟨?_, by rw [wdQuals_names]; exact h.2⟩
@@ -212,7 +214,8 @@ theorem pres_prop : (p : Prop_) → SendableProp S p → SendableProp S (wdProp 
   | .mk n ty v isArr asz refCls origin prop e quals, h => by
     simp only [SendableProp] at h
     simp only [wdProp, SendableProp]
-    exact ⟨pres_quals C S quals h.1, h.2.1, h.2.2.1, h.2.2.2.1, h.2.2.2.2.1, pres_propval v ty isArr e.isSome h.2.2.2.2.2⟩
+    exact ⟨pres_quals C S quals h.1, h.2.1, h.2.2.1, h.2.2.2.1, h.2.2.2.2.1, pres_propval v ty isArr e.isSome h.2.2.2.2.2.1,
+      h.2.2.2.2.2.2⟩
 theorem pres_props : (l : List Prop_) → SendablePropList S l → SendablePropList S (wdProps C.toCodec l)
   | [], _ => by simp only [wdProps, SendablePropList]
   | p :: l, h => by simp only [wdProps, SendablePropList]; exact ⟨pres_prop p h.1, pres_props l h.2⟩
@@ -247,8 +250,10 @@ theorem pres_inst (i : Inst) (h : SendableInst S i) : SendableInst S (wdInst C.t
       exact ⟨hb', this⟩
 
 theorem pres_qualdecl (q : QualDecl) (h : SendableQualDecl S q) : SendableQualDecl S (wdQualDecl C.toCodec q) := by
-  obtain ⟨hv, hs⟩ := h
-  refine ⟨plainVal_wd C.toCodec S q.ty q.val hv, Or.inr ?_⟩
+  obtain ⟨hv, hs, hqt, hqa⟩ := h
+  refine ⟨plainVal_wd C.toCodec S q.ty q.val hv, Or.inr ?_, hqt, by
+    show qdArrayOk (some q.isArray) (wdVal C.toCodec q.val) = true
+    rw [qdArrayOk_wd]; exact hqa⟩
   intro p hp
   simp only [wdQualDecl] at hp
   rw [wdScopes_eq] at hp
